@@ -381,7 +381,7 @@ func checkPathItemOwnership(c *Ctx, r *Report, clause, ver, pkgRel, setFn string
 			if fld := fieldOf(pi, verb); fld != nil {
 				for _, st := range w.fieldStores(fld) {
 					sites = append(sites, w.pos(st.Pos()))
-					if fnShort(st.Parent()) != setFn {
+					if fnShort(st.Parent()) != setFn && w.tableClosureReader(st.Parent()) != setFn {
 						viol = fmt.Sprintf("%s: PathItem.%s is written outside %s", w.pos(st.Pos()), verb, setFn)
 					}
 				}
@@ -506,7 +506,63 @@ func checkPathRule(c *Ctx, r *Report, clause, ver, setFn string) {
 		}
 	} else {
 		sw := w.switches(fi, w.exprIsJustField(fi, "definitions.RouteMetadata.HttpVerb"))
-		if len(sw) != 1 {
+		if len(sw) == 0 {
+			// the same dispatch as a table: setters[route.HttpVerb](pathItem, operation), each entry
+			// keyed by a verb constant and storing into the slot of that verb
+			isVerb := w.exprIsJustField(fi, "definitions.RouteMetadata.HttpVerb")
+			nTab := 0
+			w.inspectRegion(fi, func(n ast.Node) bool {
+				ix, ok := n.(*ast.IndexExpr)
+				if !ok || !isVerb(ast.Unparen(ix.Index)) {
+					return true
+				}
+				id, ok := ast.Unparen(ix.X).(*ast.Ident)
+				if !ok {
+					return true
+				}
+				v, ok := info.ObjectOf(id).(*types.Var)
+				if !ok {
+					return true
+				}
+				lit := w.mapLiteralOf(fi, v)
+				if lit == nil {
+					return true
+				}
+				nTab++
+				sites = append(sites, w.pos(ix.Pos()))
+				for _, el := range lit.Elts {
+					kv, ok := el.(*ast.KeyValueExpr)
+					if !ok {
+						continue
+					}
+					tv, ok := info.Types[kv.Key]
+					if !ok || tv.Value == nil {
+						viol = fmt.Sprintf("%s: a key of the verb table is not a constant", w.pos(kv.Pos()))
+						continue
+					}
+					verb := constString(tv.Value)
+					want := strings.Title(strings.ToLower(verb))
+					found := false
+					if fl, ok := ast.Unparen(kv.Value).(*ast.FuncLit); ok {
+						for _, st := range fl.Body.List {
+							if as, ok := st.(*ast.AssignStmt); ok && len(as.Lhs) == 1 {
+								if se, ok := as.Lhs[0].(*ast.SelectorExpr); ok && se.Sel.Name == want {
+									found = true
+									sites = append(sites, w.pos(as.Pos()))
+								}
+							}
+						}
+					}
+					if !found {
+						viol = fmt.Sprintf("%s: the entry for %q does not store the operation into PathItem.%s", w.pos(kv.Pos()), verb, want)
+					}
+				}
+				return true
+			})
+			if nTab != 1 {
+				viol = fmt.Sprintf("expected one switch on route.HttpVerb (or one table indexed by it) in %s, found %d/%d", setFn, len(sw), nTab)
+			}
+		} else if len(sw) != 1 {
 			viol = fmt.Sprintf("expected one switch on route.HttpVerb in %s, found %d", setFn, len(sw))
 		} else {
 			sites = append(sites, w.pos(sw[0].Pos))
@@ -824,4 +880,73 @@ func reachAvoiding2(start *ssa.BasicBlock, avoid map[*ssa.BasicBlock]bool) (map[
 		work = append(work, b.Succs...)
 	}
 	return seen, true
+}
+
+// tableClosureReader: fn is a function literal in the initialiser of a package-level variable
+// (a table of functions); when exactly one declared function reads that variable, the literal's
+// code runs on its behalf - its name (else "").
+func (w *World) tableClosureReader(fn *ssa.Function) string {
+	if fn == nil || fn.Parent() == nil || fn.Parent().Name() != "init" || fn.Parent().Parent() != nil {
+		return ""
+	}
+	init := fn.Parent()
+	// the global the closure ends up in: a MapUpdate / Store in init whose value is this function
+	var g *ssa.Global
+	for _, b := range init.Blocks {
+		for _, ins := range b.Instrs {
+			var val, dst ssa.Value
+			switch x := ins.(type) {
+			case *ssa.MapUpdate:
+				val, dst = x.Value, x.Map
+			case *ssa.Store:
+				val, dst = x.Val, x.Addr
+			default:
+				continue
+			}
+			v := stripTrivial(val)
+			if mc, ok := v.(*ssa.MakeClosure); ok {
+				v = mc.Fn
+			}
+			if v != ssa.Value(fn) {
+				continue
+			}
+			// dst: the map value; find the global it is stored into
+			for _, b2 := range init.Blocks {
+				for _, i2 := range b2.Instrs {
+					if st, ok := i2.(*ssa.Store); ok && stripTrivial(st.Val) == stripTrivial(dst) {
+						if gg, ok := st.Addr.(*ssa.Global); ok {
+							g = gg
+						}
+					}
+				}
+			}
+			if gg, ok := dst.(*ssa.Global); ok {
+				g = gg
+			}
+		}
+	}
+	if g == nil {
+		return ""
+	}
+	readers := map[string]bool{}
+	for _, f := range w.SSAFuncs {
+		if f == init {
+			continue
+		}
+		for _, b := range f.Blocks {
+			for _, ins := range b.Instrs {
+				for _, op := range ins.Operands(nil) {
+					if *op == ssa.Value(g) {
+						readers[fnShort(f)] = true
+					}
+				}
+			}
+		}
+	}
+	if len(readers) == 1 {
+		for k := range readers {
+			return k
+		}
+	}
+	return ""
 }
